@@ -421,7 +421,7 @@ func init() {
 			"the explorer stub hands out one status object per target for the whole run, as Explore.Get does",
 			"per-replica guarantees themselves are judged by C01-C08 on single replicas; C19 judges independence",
 		},
-		NumCases: func(tier string) int { return c19Base(tier) + e6.K8sReplicaCases(tier) },
+		NumCases:      func(tier string) int { return c19Base(tier) + e6.K8sReplicaCases(tier) },
 		Run:           runC19,
 		MinNontrivial: 200,
 	})
